@@ -111,7 +111,7 @@ Definition oclass_eqb (a b : oclass) : bool :=
 
 Definition obs_eqb (a b : obs) : bool :=
   oclass_eqb (o_class a) (o_class b) && opt_eqb Bool.eqb (o_started a) (o_started b) &&
-  Nat.eqb (o_closes a) (o_closes b) && Nat.eqb (o_waiting a) (o_waiting b).
+  Nat.eqb (o_closes a) (o_closes b) && Nat.eqb (o_waiting a) (o_waiting b) && Nat.eqb (o_running a) (o_running b).
 
 (* the observation is one of those the life-cycle LTS predicts under the given switches *)
 Definition predicted (sw : switches) (c : life_case) : bool :=
